@@ -444,7 +444,153 @@ func c37RunSeq(line string) string {
 	return head + "|" + strings.Join(outs, ";")
 }
 
+// c37RunHist: a history of keystore calls inside one process state, passwords handed over either
+// in ONE reused buffer (`b`: the bytes are copied into the same backing array before the call, as a
+// caller that reads every password into one buffer does) or in a fresh slice (`f`).
+//
+//	hist|op;op;…
+//	op = e <slot> <kind> <data> <pw> <rnd> <b|f>     kind = m (raw message) | k:<scheme> | f:<scheme> (key file)
+//	   | d <slot> <pw> <b|f>                         decrypt what the slot holds
+//
+// Output: o1;o2;…|s<i>:<dec right pw> <dec other pw>,…   (the part after | is computed after the
+// history with fresh slices for every slot that holds a ciphertext).
+type c37Slot struct {
+	kind, scheme string
+	data, pw, ct []byte
+	path         string
+}
+
+func c37RunHist(line string) string {
+	parts := strings.SplitN(line, "|", 2)
+	if len(parts) != 2 || parts[0] != "hist" {
+		return "bad-op"
+	}
+	pwbuf := make([]byte, 0, 2048)
+	give := func(pw []byte, mode string) []byte {
+		if mode == "b" {
+			pwbuf = pwbuf[:len(pw)]
+			copy(pwbuf, pw)
+			return pwbuf
+		}
+		return append([]byte{}, pw...)
+	}
+	var slots [4]*c37Slot
+	defer func() {
+		for _, sl := range slots {
+			if sl != nil && sl.path != "" {
+				os.Remove(sl.path)
+			}
+		}
+	}()
+	dec := func(sl *c37Slot, pw []byte) string {
+		sn := c37Snapshot(sl.ct, sl.data, pw)
+		return vhCatch(func() string {
+			switch sl.kind {
+			case "m":
+				m, err := Decrypt(sl.ct, pw)
+				return c37ShowB(m, err, sl.data)
+			case "k":
+				k, err := DecryptPrivateKey(sl.ct, pw, sl.scheme)
+				return c37ShowK(k, err, sl.scheme, sl.data)
+			default:
+				k, err := ReadFromFileAndDecrypt(sl.path, pw)
+				return c37ShowK(k, err, sl.scheme, sl.data)
+			}
+		}) + sn.changed()
+	}
+	var outs []string
+	for _, o := range strings.Split(parts[1], ";") {
+		f := strings.Split(o, " ")
+		switch {
+		case f[0] == "e" && len(f) == 7:
+			i, err := strconv.Atoi(f[1])
+			if err != nil || i < 0 || i > 3 || (f[6] != "b" && f[6] != "f") || len(f[4]) > 4096 {
+				return "bad-op"
+			}
+			kd := strings.SplitN(f[2], ":", 2)
+			sl := &c37Slot{kind: kd[0], data: vhUnhex(f[3]), pw: vhUnhex(f[4])}
+			rnd := vhUnhex(f[5])
+			var pk crypto.PrivateKey
+			if sl.kind == "k" || sl.kind == "f" {
+				if len(kd) != 2 {
+					return "bad-op"
+				}
+				sl.scheme = kd[1]
+				if pk, err = c37NewKey(sl.scheme, sl.data); err != nil {
+					outs = append(outs, "kerr")
+					continue
+				}
+			} else if sl.kind != "m" {
+				return "bad-op"
+			}
+			pw := give(sl.pw, f[6])
+			sn := c37Snapshot(sl.data, pw)
+			var ct []byte
+			switch sl.kind {
+			case "m":
+				c37WithRand(rnd, func() { ct, err = Encrypt(sl.data, pw) })
+			case "k":
+				c37WithRand(rnd, func() { ct, err = EncryptPrivateKey(pk, pw) })
+			default:
+				sl.path = c37TmpFile()
+				c37WithRand(rnd, func() { err = EncryptAndWriteToFile(sl.path, pk, pw) })
+				if err == nil {
+					raw, rerr := os.ReadFile(sl.path)
+					ks := new(EncryptedKeystore)
+					if rerr != nil || json.Unmarshal(raw, ks) != nil {
+						return "harness-read"
+					}
+					ct = ks.Ciphertext
+				}
+			}
+			if err != nil {
+				if sl.path != "" {
+					os.Remove(sl.path)
+				}
+				outs = append(outs, "eerr"+sn.changed())
+				continue
+			}
+			sl.ct = ct
+			if old := slots[i]; old != nil && old.path != "" {
+				os.Remove(old.path)
+			}
+			slots[i] = sl
+			outs = append(outs, "ok "+c37Shape(ct, rnd)+sn.changed())
+		case f[0] == "d" && len(f) == 4:
+			i, err := strconv.Atoi(f[1])
+			if err != nil || i < 0 || i > 3 || (f[3] != "b" && f[3] != "f") || len(f[2]) > 4096 {
+				return "bad-op"
+			}
+			if slots[i] == nil {
+				outs = append(outs, "none")
+				continue
+			}
+			outs = append(outs, dec(slots[i], give(vhUnhex(f[2]), f[3])))
+		default:
+			return "bad-op"
+		}
+	}
+	var fin []string
+	for i, sl := range slots {
+		if sl == nil {
+			continue
+		}
+		right := append([]byte{}, sl.pw...)
+		other := append([]byte{}, sl.pw...)
+		if len(other) == 0 {
+			other = []byte{0}
+		} else {
+			other[len(other)-1] ^= 1
+		}
+		fin = append(fin, fmt.Sprintf("s%d:%s %s", i, dec(sl, right), dec(sl, other)))
+	}
+	return strings.Join(outs, ";") + "|" + strings.Join(fin, ",")
+}
+
 func c37Run(line string) string {
+	if strings.HasPrefix(line, "hist|") {
+		return c37RunHist(line)
+	}
 	if strings.HasPrefix(line, "seq ") {
 		return c37RunSeq(line)
 	}
@@ -691,7 +837,75 @@ func c37GenSeq(r *vhRng, pw []byte, n int) string {
 	return strings.Join(ops, ";")
 }
 
+// c37GenHist draws a history of 3..9 calls over a pool of passwords that mostly have the SAME
+// length (one bit different, all zero, wiped tail): exactly what an in-place reuse of a password
+// buffer produces.
+func c37GenHist(r *vhRng) string {
+	var base []byte
+	switch r.Intn(6) {
+	case 0:
+		base = []byte{}
+	case 1:
+		base = r.Bytes(1 + r.Intn(3))
+	case 2:
+		base = []byte(c37Unicode[r.Intn(len(c37Unicode))])
+	case 3:
+		base = r.Bytes(r.Pick(32, 64, 200))
+	default:
+		base = []byte("correct horse battery staple")[:8+r.Intn(21)]
+	}
+	pool := [][]byte{base}
+	if len(base) > 0 {
+		a := append([]byte{}, base...)
+		a[r.Intn(len(a))] ^= 1 << uint(r.Intn(8))
+		b := make([]byte, len(base)) // wiped buffer
+		c := append([]byte{}, base...)
+		c[len(c)-1] ^= 0x80
+		pool = append(pool, a, b, c)
+	}
+	if r.Chance(1, 2) {
+		pool = append(pool, append(append([]byte{}, base...), byte(r.Intn(256)))) // other length
+	}
+	if r.Chance(1, 4) && len(base) > 0 {
+		pool = append(pool, base[:len(base)-1])
+	}
+	pick := func() []byte { return pool[r.Intn(len(pool))] }
+	mode := func() string {
+		if r.Chance(3, 4) {
+			return "b"
+		}
+		return "f"
+	}
+	n := 3 + r.Intn(7)
+	ops := make([]string, 0, n)
+	used := 0
+	for i := 0; i < n; i++ {
+		if used == 0 || r.Chance(1, 3) {
+			slot := r.Intn(3)
+			scheme := c37Schemes[r.Intn(3)]
+			var kind string
+			var data []byte
+			switch r.Intn(5) {
+			case 0, 1:
+				kind, data = "m", r.Bytes(r.Pick(0, 1, 16, 32, 33))
+			case 2, 3:
+				kind, data = "k:"+scheme, c37GenKey(r, scheme)
+			default:
+				kind, data = "f:"+scheme, c37GenKey(r, scheme)
+			}
+			ops = append(ops, fmt.Sprintf("e %d %s %s %s %s %s", slot, kind, vhHex(data), vhHex(pick()), vhHex(r.Bytes(12)), mode()))
+			used++
+		} else {
+			ops = append(ops, fmt.Sprintf("d %d %s %s", r.Intn(3), vhHex(pick()), mode()))
+		}
+	}
+	return "hist|" + strings.Join(ops, ";")
+}
+
 func c37Gen(r *vhRng) string {
+	if r.Chance(1, 8) {
+		return c37GenHist(r)
+	}
 	if r.Chance(1, 7) {
 		scheme := c37Schemes[r.Intn(3)]
 		pw := c37GenPw(r)
